@@ -1,5 +1,7 @@
 import TR.Model.Common
 import TR.Model.Bulkhead
+import TR.Model.Adaptive
+import TR.Model.Limit
 import TR.Model.Stack
 import TR.Model.Budget
 import TR.Model.TimeLimiter
@@ -38,6 +40,8 @@ def machineOf (name : String) : Option Machine :=
   | "timelimiter" => some TimeLimiter.machine
   | "budget" => some Budget.machine
   | "stack" => some Stack.machine
+  | "limit" => some Limit.machine
+  | "adaptive" => some Adaptive.machine
   | _ => none
 
 structure Run (m : Machine) where
